@@ -140,7 +140,14 @@ def historyFlags (tr : List Tr) : List String :=
       | _ => st) (false, false)).2
   let k2 := tr.any fun t => match t with | .closeReq _ n => n > 0 | _ => false
   let fq := tr.any fun t => match t with | .forceQuit => true | _ => false
-  (if k1a || k1b then ["K1"] else []) ++ (if k2 then ["K2"] else []) ++ (if fq then ["forceQuit"] else [])
+  -- K5: an InputReadySignal was routed into a level that is not the innermost one (it is held there while an inner level runs)
+  let held := (tr.foldl (fun (st : List Nat × Bool) t =>
+      match t with
+      | .openLevel q _ => (st.1 ++ [q], st.2)
+      | .closeLevel _ => (st.1.dropLast, st.2)
+      | .enq q s => if s.cls == .inputReady && st.1.getLast? != some q then (st.1, true) else st
+      | _ => st) ([0], false)).2
+  (if k1a || k1b then ["K1"] else []) ++ (if k2 then ["K2"] else []) ++ (if fq then ["forceQuit"] else []) ++ (if held then ["K5"] else [])
 
 /-- C20: the `Calm` clauses evaluated on the MainLoop machine's trace (oldest first); the result lists the violated clauses -/
 structure CalmSt where
